@@ -34,7 +34,7 @@ func TestC03(t *testing.T) {
 // ---- C04 -------------------------------------------------------------------
 
 var c04Cfg = SGenCfg{RFs: []int{2, 3, 3, 4, 5}, MinOps: 5, MaxOps: 26, FaultPct: 45, SlowFaults: true, MaxSlow: 1,
-	W: map[string]int{"write": 22, "read": 40, "readd": 12, "add": 4, "promote": 5, "remove": 5, "nodedrop": 2, "verifyonly": 5, "snapshot": 3, "loneboot": 4}}
+	W: map[string]int{"write": 22, "read": 40, "readd": 12, "add": 4, "promote": 5, "remove": 5, "nodedrop": 2, "verifyonly": 5, "snapshot": 3, "loneboot": 4, "addwrite": 5}}
 
 func TestC04(t *testing.T) {
 	runStackProperty(t, "C04", "TestC04", func(rt *rapid.T) SProgram { return GenSProgram(rt, c04Cfg) },
